@@ -1,4 +1,5 @@
 """C07 Variable scoping: locals do not leak, assignments persist where they should."""
+import exectrace
 import simple
 
 
@@ -14,6 +15,10 @@ def check(run, only=None):
     run.assumptions = ["bodies do not assign to their own loop/parameter names (excluded by the property statement)",
                        "macro bodies only touch their parameters and fresh names"]
     simple.gen_and_replay(run, "C07", nontrivial=nontrivial, only=only)
+
+    if only is None:
+        # binding T: seeded random programs over the whole schema, accepted by TLC against the reference executor
+        exectrace.run_exec_trace(run, 20000 if run.tier == "thorough" else 1000, 7)
 
 
 def replay(run, path):
